@@ -763,3 +763,7 @@ add("C12", "type annotation dumped in a compact form that drops its scalar argum
 add("C12", "benign: type annotation dumped through a local alias", "sqlglot/serde.py",
     "            if node.type and node.type is not node:\n                payload[TYPE] = dump(node.type)",
     "            node_type = node.type\n            if node_type and node_type is not node:\n                payload[TYPE] = dump(node_type)", "silent", 0)
+
+add("C08", "revert: Doris partition bounds stored as nested lists", "sqlglot/parsers/doris.py",
+    "        values = self._parse_csv(\n            lambda: self.expression(\n                exp.Tuple(expressions=self._parse_wrapped_csv(self._parse_expression))\n            )\n        )\n",
+    "        values = self._parse_csv(lambda: self._parse_wrapped_csv(self._parse_expression))\n", "C08.h")
